@@ -191,7 +191,9 @@ pub trait ByteReader {
         Self: Sized,
         D: Deserializable,
     {
-        let mut result = Vec::with_capacity(num_elements);
+        // `num_elements` frequently comes straight from untrusted input, so it must not drive the
+        // size of the up-front allocation
+        let mut result = Vec::with_capacity(core::cmp::min(num_elements, 1024));
         for _ in 0..num_elements {
             let element = D::read_from(self)?;
             result.push(element)
